@@ -174,6 +174,19 @@ def dump_int(n: int) -> str:
     return load_plain(text)
 
 
+def int_digit_limit(n: int, side: int, sign: int) -> str:
+    """decimal integers around the interpreter's limit for int <-> str conversion (4300 digits
+    since CPython 3.11): the number of digits is the solver variable"""
+    sg = pick(sign, ['', '-', '+'])
+    for i in range(4296, 4306):
+        if n == i:
+            if side == 0:
+                return load_plain(sg + '1' * i)
+            v = 10 ** (i - 1)
+            return dump_int(-v if sign == 1 else v)
+    return 'ok'
+
+
 def dump_consts(k: int) -> str:
     """None / True / False / dates: the written text is in the language of its own type"""
     vals = [None, True, False, datetime.date(2001, 12, 14), datetime.datetime(2001, 12, 14, 21, 59, 43),
@@ -490,6 +503,8 @@ def jobs(tier):
         js.append(Job('ts-template/%d' % f, ts_template, [lambda form, d, _f=f: form == _f and len(d) == TSL],
                       budget=200 if q else 1800, need_reach=False,
                       bounds='timestamp form %d with %d free characters' % (f, TSL)))
+    js.append(Job('int-digit-limit', int_digit_limit, [lambda n, side, sign: 4296 <= n <= 4305 and 0 <= side <= 1 and 0 <= sign <= 2], budget=120,
+                  bounds='decimal integers of 4296..4305 digits (the digit count is the solver variable; the text is concrete per path) x load / dump x sign'))
     for n in ([4, 6] if q else [1, 2, 3, 4, 5, 6, 7]):
         js.append(Job('ts-fraction/%d-digits' % n, ts_fraction,
                       [lambda n, d0, d1, d2, d3, d4, d5, d6, tz, _n=n: n == _n and 0 <= d0 <= 9 and 0 <= d1 <= 9 and 0 <= d2 <= 9 and 0 <= d3 <= 9 and
